@@ -72,12 +72,12 @@ def to_model(code, atoms):
             if c is True or c is False: emit(i, ('loadBool', c))
             elif c is None: emit(i, ('loadNone',))
             elif isinstance(c, types.CodeType): emit(i, ('load', atoms('<genexpr:%d>' % inner.index(c))))
-            else: emit(i, ('load', atoms(const_atom(c))))
+            else: emit(i, ('loadLit', atoms(const_atom(c)), bool(c)))      # a constant: its truth value is known (CPython folds tests on it)
         elif n == 'RETURN_CONST':
             c = i.argval
             if c is True or c is False: emit(i, ('loadBool', c), ('return',))
             elif c is None: emit(i, ('loadNone',), ('return',))
-            else: emit(i, ('load', atoms(const_atom(c))), ('return',))
+            else: emit(i, ('loadLit', atoms(const_atom(c)), bool(c)), ('return',))
         elif n == 'LOAD_ATTR': emit(i, ('op', 'attr:' + i.argval, 1))
         elif n == 'BINARY_OP':
             if i.argrepr.endswith('=') and i.argrepr not in ('==',): emit(i, ('unsupported', n + i.argrepr))
@@ -182,7 +182,7 @@ class AstModel:
             if c is True or c is False: return ['bool', c]
             if c is None: return ['none']
             if isinstance(c, types.CodeType): raise Unsupported('code constant')
-            return ['atom', self.atoms(const_atom(c))]
+            return ['lit', self.atoms(const_atom(c)), bool(c)]
         if isinstance(n, ast.UnaryOp):
             if isinstance(n.op, ast.Not): return ['not', E(n.operand)]
             return ['app', 'un:' + {ast.USub: '-', ast.UAdd: '+', ast.Invert: '~'}[type(n.op)], [E(n.operand)]]
@@ -277,7 +277,9 @@ def tag_of(v, env):
         return ('app', 'call', (('atom', env.code_names.get(v.gi_code, '<genexpr:?>')), tag_of(it, env)))
     if isinstance(v, types.FunctionType) and v.__code__ in env.code_names: return ('atom', env.code_names[v.__code__])
     if isinstance(v, Iter): return v.tag
-    if isinstance(v, tuple): return ('app', 'tuple', tuple(tag_of(x, env) for x in v))
+    if isinstance(v, tuple):
+        if v and all(type(x) in (int, str, float, bytes, bool, type(None)) for x in v): return ('atom', const_atom(v))
+        return ('app', 'tuple', tuple(tag_of(x, env) for x in v))
     if isinstance(v, list): return ('app', 'list', tuple(tag_of(x, env) for x in v))
     if isinstance(v, set): return ('app', 'set', tuple(sorted({tag_of(x, env) for x in v}, key=repr)))
     if isinstance(v, dict): return ('app', 'map', tuple(t for k, x in v.items() for t in (tag_of(k, env), tag_of(x, env))))
@@ -303,7 +305,7 @@ class Sym:
     def __init__(self, tag, env):
         object.__setattr__(self, '_tag', tag); object.__setattr__(self, '_env', env)
     def __bool__(self): return self._env.truth(self._tag)
-    __hash__ = object.__hash__
+    def __hash__(self): return hash(repr(self._tag))
     __eq__ = _cmp('=='); __ne__ = _cmp('!='); __lt__ = _cmp('<'); __le__ = _cmp('<='); __gt__ = _cmp('>'); __ge__ = _cmp('>=')
     def __contains__(self, item): return self._env.truth(('app', 'in', (tag_of(item, self._env), self._tag)))
     def __call__(self, *args, **kw):
@@ -386,7 +388,7 @@ def real_run(code, kind, assign, none_candidates=()):
 # ------------------------------------------------------------------------------------------------ walking the model's tree
 def term_tag(t, names):
     if t is None or t is True or t is False: return t
-    if t[0] == 'atom': return ('atom', names[t[1]])
+    if t[0] in ('atom', 'lit'): return ('atom', names[t[1]])
     return ('app', t[1], tuple(term_tag(a, names) for a in t[2]))
 
 
@@ -402,7 +404,12 @@ def subst_items(tag, sub, assign=None, top=True, nonec=None):
             if (f.startswith('un:') and native[0]) or (f.startswith('bin:') and all(native)) or (f in CMPSYM.values() and native[0]) \
                     or (f.startswith('attr:') and native[0]) or (f == 'subscr' and native[0]) or (f.startswith('call') and native[0]) or (f == 'in' and native[1]):
                 raise SkipValidation('operator applied to a constant operand is computed by CPython itself')
-            if f == 'set': args = tuple(sorted(set(args), key=repr))           # a real set has no order (and no duplicates)
+            if f == 'set':
+                if sum(1 for a in args if const_of(a)[0]) > 1: raise SkipValidation('a set of constants is built by CPython itself (1 == True)')
+                args = tuple(sorted(set(args), key=repr))           # a real set has no order (and no duplicates)
+            if f == 'tuple' and args and all(const_of(a)[0] for a in args):
+                tag = ('atom', const_atom(tuple(const_of(a)[1] for a in args)))      # CPython folds a tuple of constants into one constant
+                return tag
             if f == 'slice' and len(args) == 3 and args[2] is None: args = args[:2]      # slice(a, b, None) is slice(a, b)
             tag = fold_fstring(('app', f, args))
         if top and assign and assign.get(('none', tag)) and (nonec is None or tag in nonec) and not is_native(tag): return None
@@ -581,6 +588,11 @@ class RenameFirstIter(ast.NodeTransformer):
     def visit_Name(self, n):
         if n.id == '.0': return ast.copy_location(ast.Name(FIRST_ITER, ast.Load()), n)
         return n
+    def visit_Constant(self, n):
+        # ast.unparse prints Constant(-1) ** a as `-1 ** a`, i.e. with another meaning: give it the shape the parser would produce
+        if type(n.value) in (int, float) and (n.value < 0 or (n.value == 0 and str(n.value).startswith('-'))):
+            return ast.UnaryOp(ast.USub(), ast.Constant(-n.value))
+        return n
     def fv(self, n):
         n.value = self.visit(n.value)
         if n.format_spec is not None:
@@ -685,7 +697,7 @@ def request_of(p):
 def values_of(e, names, cap=24):
     """tags of the values a model expression (JSON of AstModel) may evaluate to (operands of and/or/if-else are alternatives)"""
     k = e[0]
-    if k == 'atom': return [('atom', names[e[1]])]
+    if k in ('atom', 'lit'): return [('atom', names[e[1]])]
     if k == 'bool': return [e[1]]
     if k == 'none': return [None]
     if k == 'not': return [True, False]
